@@ -118,3 +118,19 @@ FACETS = [
     Facet('torch/circuit-configs', f_circuit, strategy=lambda t: c09.st_case_torch(4, 8), examples={'quick': 200, 'thorough': 8000},
           shards={'quick': 2, 'thorough': 8}, backend='torch'),
 ]
+
+
+def f_history(case):
+    """round trips on circuits built by take / compile / compile-layers / copy histories - including a compiled circuit that was extended and
+    is used without recompiling (its maps may ignore the new gates, but forward and backward must still be inverse to each other)."""
+    be, N = case['be'], case['N']
+    stale = False
+    for order in ('fb', 'bf'):
+        circ, prog, gates, stale = c09.run_history(be, N, case['steps'], case.get('cls', 'CliffordCircuit'))
+        _round_trip(be, circ, case['input'], N, 'circuit built by the history %s' % [x['t'] for x in case['steps']], order)
+    return {'nt': _odd_or_neg(case['input']) and len(prog) >= 2 and any(x['t'] != 'take' for x in case['steps']), 'labels': ['N=%d' % N, 'stale' if stale else 'fresh']}
+
+
+FACETS.append(Facet('np/build-histories', f_history, strategy=lambda t: c09.st_history('np', 4), examples={'quick': 1500, 'thorough': 60000}, shards={'quick': 3, 'thorough': 12}))
+FACETS.append(Facet('torch/build-histories', f_history, strategy=lambda t: c09.st_history('torch', 3, ['rot', 'fmap', 'bmap'], ('CliffordCircuit',)),
+                    examples={'quick': 150, 'thorough': 6000}, shards={'quick': 1, 'thorough': 4}, backend='torch'))
